@@ -24,6 +24,8 @@ use tokio::task::JoinHandle;
 #[derive(Clone, Copy, Debug, PartialEq, Eq, Hash)]
 pub enum Focus {
     C01,
+    C02,
+    C03,
     C04,
     C09,
     C10,
@@ -39,6 +41,8 @@ impl Focus {
     fn tag(&self) -> &'static str {
         match self {
             Focus::C01 => "C01",
+            Focus::C02 => "C02",
+            Focus::C03 => "C03",
             Focus::C04 => "C04",
             Focus::C09 => "C09",
             Focus::C10 => "C10",
@@ -315,6 +319,22 @@ impl Sys {
         }
         for id in &established_now {
             self.established.insert(*id);
+        }
+        // ---- C03: a handshake packet that was accepted once (or not) is injected again ----
+        if let Some(inj) = &self.w.last_injected {
+            if inj.tag.via == "replayed-handshake" {
+                rep.count("sys_replayed_handshakes");
+                if !established_now.is_empty() {
+                    let label = inj.tag.label.clone();
+                    self.flag(rep, Focus::C03, "C03:replayed-handshake-accepted", format!("a session was announced in the step whose only input was a replayed handshake packet: {label}"), json!({}));
+                }
+            }
+            if inj.tag.via == "replayed" {
+                rep.count("sys_replayed_datagrams");
+            }
+            if inj.tag.via == "corrupted" {
+                rep.count("sys_corrupted_datagrams");
+            }
         }
         let table = self.w.table();
 
@@ -653,6 +673,49 @@ impl Sys {
                 _ => {}
             }
         }
+        // ---- C02: everything delivered is what that peer sent ----
+        for c in &self.talk {
+            rep.count("sys_delivered_requests_checked");
+            let Some(i) = self.w.node_by_id(&c.node_id) else {
+                self.flag(rep, Focus::C02, "C02:delivered-request-from-unknown-node", "a TALK request was delivered as coming from a node id that does not exist".into(), json!({}));
+                continue;
+            };
+            let sent = self.w.nodes[i].requests_sent.iter().any(|(_, m)| matches!(m, RefMessage::TalkReq { id, request, protocol } if *id == c.req_id && *request == c.body && protocol == b"sys"));
+            if !sent {
+                self.flag(rep, Focus::C02, "C02:delivered-request-not-sent-by-peer", format!("TALKREQ#{} ({} bytes) was delivered as coming from node {i}, which never sent that request", hx(&c.req_id), c.body.len()), json!({"node": i}));
+            }
+        }
+        for a in &self.apis {
+            let (Some((_, out)), Some(i)) = (&a.done, a.node) else { continue };
+            match out {
+                ApiOut::Talk(Ok(p)) => {
+                    rep.count("sys_delivered_responses_checked");
+                    if !self.w.nodes[i].replies_sent.iter().any(|(_, m)| matches!(m, RefMessage::TalkResp { response, .. } if response == p)) {
+                        self.flag(rep, Focus::C02, "C02:delivered-response-not-sent-by-peer", format!("talk_req to node {i} returned {} bytes that node never sent", p.len()), json!({"node": i}));
+                    }
+                }
+                ApiOut::Pong(Ok((seq, ip, port))) => {
+                    rep.count("sys_delivered_responses_checked");
+                    let ipb = rlp_ref::ip_bytes(ip);
+                    if !self.w.nodes[i].replies_sent.iter().any(|(_, m)| matches!(m, RefMessage::Pong { enr_seq, ip, port: p, .. } if enr_seq == seq && *ip == ipb && p == port)) {
+                        self.flag(rep, Focus::C02, "C02:delivered-response-not-sent-by-peer", format!("send_ping to node {i} returned a PONG (seq {seq}, {ip}:{port}) that node never sent"), json!({"node": i}));
+                    }
+                }
+                ApiOut::Nodes(Ok(v)) => {
+                    rep.count("sys_delivered_responses_checked");
+                    let served: HashSet<Vec<u8>> = self.w.nodes[i].replies_sent.iter().flat_map(|(_, m)| match m {
+                        RefMessage::Nodes { records, .. } => records.clone(),
+                        _ => vec![],
+                    }).collect();
+                    for e in v {
+                        if !served.contains(&rlp_ref::encode_record(e)) {
+                            self.flag(rep, Focus::C02, "C02:delivered-response-not-sent-by-peer", format!("find_node_designated_peer to node {i} returned a record that node never sent"), json!({"node": i}));
+                        }
+                    }
+                }
+                _ => {}
+            }
+        }
         // ---- C20: every TALK request handed to the application ----
         let mut per_key: HashMap<(Id, Vec<u8>), Vec<&TalkCase>> = HashMap::new();
         for c in &self.talk {
@@ -859,9 +922,16 @@ pub fn mixed(seed: u64, focus: Focus, rep: &mut Report) {
         let spec = NetSpec { n: 5 + rng.usize(14), silent: rng.usize(3), mismatched: rng.usize(3), no_addr: rng.usize(2), v6: if stack == Stack3::Dual { 1 + rng.usize(3) } else { 0 } };
         let all = build_net(&mut s, &spec);
         let honest: Vec<usize> = all.iter().copied().filter(|i| !s.w.nodes[*i].b.silent).collect();
-        let lossy = rng.chance(1, 2);
+        let lossy = rng.chance(1, 2) || focus == Focus::C02 || focus == Focus::C03;
         if lossy {
-            s.w.faults = Faults3 { drop: 30 + rng.below(120), dup: if focus == Focus::C14 { 0 } else { rng.below(80) }, delay: if focus == Focus::C14 { 0 } else { rng.below(150) } };
+            let hostile = focus == Focus::C02 || focus == Focus::C03;
+            s.w.faults = Faults3 {
+                drop: 30 + rng.below(120),
+                dup: if focus == Focus::C14 { 0 } else { rng.below(80) },
+                delay: if focus == Focus::C14 { 0 } else { rng.below(150) },
+                corrupt: if hostile { 20 + rng.below(150) } else { 0 },
+                replay: if hostile { 20 + rng.below(150) } else { 0 },
+            };
         }
         // bootstrap
         let boot = 1 + rng.usize(4);
@@ -1255,7 +1325,7 @@ pub fn lookup(seed: u64, focus: Focus, rep: &mut Report) {
             }
         }
         if rng.chance(1, 2) {
-            s.w.faults = Faults3 { drop: rng.below(100), dup: rng.below(60), delay: rng.below(200) };
+            s.w.faults = Faults3 { drop: rng.below(100), dup: rng.below(60), delay: rng.below(200), ..Default::default() };
         }
         let boot = 1 + rng.usize(6);
         let mut boots = all.clone();
@@ -1523,7 +1593,7 @@ pub fn votes(seed: u64, rep: &mut Report) {
             s.w.nodes[*i].b.pong_addr = Some(if together || k % 2 == 0 { lie_a } else { lie_b });
         }
         if rng.chance(1, 3) {
-            s.w.faults = Faults3 { drop: rng.below(150), dup: rng.below(80), delay: rng.below(100) };
+            s.w.faults = Faults3 { drop: rng.below(150), dup: rng.below(80), delay: rng.below(100), ..Default::default() };
         }
         // Only peers this node dialled itself count as voters, and a node added by the user keeps
         // the direction "incoming": start from one or two added nodes and let lookups find (and
@@ -1596,6 +1666,8 @@ pub fn replay(r: &Value, rep: &mut Report) -> bool {
     let seed: u64 = r["replay"]["scenario_seed"].as_str().unwrap().parse().unwrap();
     let focus = match r["replay"]["focus"].as_str().unwrap_or("") {
         "C01" => Focus::C01,
+        "C02" => Focus::C02,
+        "C03" => Focus::C03,
         "C04" => Focus::C04,
         "C09" => Focus::C09,
         "C10" => Focus::C10,
@@ -1634,7 +1706,7 @@ pub fn run_debug(p: &crate::util::Params) -> Report {
     let n = p.budget(400, 20_000);
     for i in 0..n {
         let seed = p.shard_seed(0x515_000 + i);
-        for f in [Focus::C12, Focus::C13, Focus::C14, Focus::C19, Focus::C20] {
+        for f in [Focus::C02, Focus::C03, Focus::C04, Focus::C12, Focus::C13, Focus::C14, Focus::C19, Focus::C20] {
             crate::util::guarded(&mut rep, seed, |rep| mixed(seed, f, rep));
         }
         crate::util::guarded(&mut rep, seed, |rep| attack(seed, rep));
